@@ -129,4 +129,8 @@ theorem identity_block_kron (m n : Type) [Fintype m] [Fintype n] [DecidableEq m]
     Matrix.kroneckerMap (· * ·) (1 : Matrix m m ℂ) (1 : Matrix n n ℂ) = 1 :=
   Matrix.one_kronecker_one
 
+/-- C18 rule chaining: the ordered product of a concatenation of sequences is the ordered product of their products (non-commutative monoid of actions). -/
+theorem prod_flatten_rule {M : Type} [Monoid M] (l : List (List M)) : l.flatten.prod = (l.map List.prod).prod :=
+  List.prod_flatten
+
 end VerifPrelude
